@@ -8,6 +8,7 @@ CONSTANTS
   MaxKeys = 7
   DigMode = "mixed"
   EmitEdges = FALSE
+  EmitOneIn = 1
   WithReads = TRUE
 VIEW View
 INVARIANTS WellFormed Refines Routing
